@@ -61,6 +61,9 @@ func (w *World) sharingScan() {
 		for b := a + 1; b < len(refs) && refs[b].c.DataPtr < endA; b++ {
 			rb := refs[b]
 			if ra.slot == rb.slot {
+				if ra.c.ContainerPtr != rb.c.ContainerPtr && w.selfOverlapProbe(ra, rb) {
+					return
+				}
 				continue
 			}
 			w.probe("shared-backing-seen")
@@ -161,4 +164,66 @@ func (w *World) regionScan() {
 			reg.Resum()
 		}
 	}
+}
+
+// selfOverlapProbe: two chunks of ONE bitmap whose backing arrays overlap (the spare
+// capacity of the first reaches into the data of the second). Decided behaviourally: grow
+// the first chunk in place by a few values and see whether the bitmap still equals its model.
+func (w *World) selfOverlapProbe(a, b chunkRef) bool {
+	if a.c.Kind != 1 || a.c.ElemSize == 0 {
+		return false // only array chunks grow by appending within capacity
+	}
+	w.probe("chunks-of-one-bitmap-overlap-in-memory")
+	key := [2]uintptr{a.c.ContainerPtr, b.c.ContainerPtr}
+	if w.unconf[key] {
+		return false
+	}
+	o := w.B[a.slot]
+	need := int(b.c.DataPtr-a.c.DataPtr)/a.c.ElemSize - a.c.Len + 1
+	if need < 1 {
+		need = 1
+	}
+	if need > 64 {
+		return false
+	}
+	words := o.M.ChunkWords(a.c.Key)
+	if words == nil {
+		return false
+	}
+	// values above the chunk's maximum: they are appended
+	var add []uint32
+	for i := 65535; i >= 0 && len(add) < need; i-- {
+		if words[i>>6]&(1<<(uint(i)&63)) != 0 {
+			break
+		}
+		add = append(add, uint32(a.c.Key)<<16|uint32(i))
+	}
+	if len(add) < need {
+		return false
+	}
+	m2 := o.M.Clone()
+	hit := false
+	pan := w.try(w.curTag+"+C02", func() {
+		for i := len(add) - 1; i >= 0; i-- {
+			o.BM.Add(add[i])
+			m2.Add(add[i])
+		}
+		if ok, d := eq32(o.BM, m2); !ok {
+			hit = true
+			w.fail(w.curTag+"+C02", "self-aliasing", "growing one chunk of a bitmap overwrote another chunk of the same bitmap",
+				fmt.Sprintf("after %s, chunks %#x and %#x of slot %d (%s) overlap in memory; adding %d values to the first corrupted the bitmap: %s", w.curOp, a.c.Key, b.c.Key, a.slot, o.Prov, len(add), d))
+		}
+		for _, v := range add {
+			o.BM.Remove(v)
+		}
+	})
+	if pan || hit {
+		w.rebuild(a.slot)
+		return true
+	}
+	if w.unconf == nil {
+		w.unconf = map[[2]uintptr]bool{}
+	}
+	w.unconf[key] = true
+	return false
 }
